@@ -1297,8 +1297,8 @@ class Interp:
                 any(isinstance(x, (ast.Yield, ast.YieldFrom, ast.Global, ast.Nonlocal)) for x in ast.walk(f.node)):
             return False
         if not any(isinstance(x, ast.Subscript) and isinstance(x.ctx, ast.Store) and isinstance(x.value, ast.Name) and
-                   x.value.id in f.params for x in ast.walk(f.node)):
-            return False        # not a procedure that writes its arguments
+                   x.value.id in f.params for x in ast.walk(f.node)) and not any(isinstance(x, ast.Raise) for x in ast.walk(f.node)):
+            return False        # neither a procedure that writes its arguments nor a validation helper that raises
         if sum(1 for x in ast.walk(f.node) if isinstance(x, ast.stmt)) > 25 or len(e.args) + len(e.keywords) > len(f.params):
             return False
         args = [self.ev(a) for a in e.args]
